@@ -373,7 +373,21 @@ func (t *UpdateTran) Output(th *core.Thread, table string, rec core.Record) {
 	}()
 	ti.Nrows++
 	ti.Size += int64(n)
-	t.db.CallTrigger(th, t, table, "", rec)
+	t.callTrigger(th, table, "", rec)
+}
+
+// callTrigger calls the table's trigger (if any).
+// The change has already been applied to the transaction,
+// so if the trigger fails the transaction is aborted
+// to ensure the change can not be committed.
+func (t *UpdateTran) callTrigger(th *core.Thread, table string, oldrec, newrec core.Record) {
+	defer func() {
+		if e := recover(); e != nil {
+			t.Abort()
+			panic(e)
+		}
+	}()
+	t.db.CallTrigger(th, t, table, oldrec, newrec)
 }
 
 func (t *UpdateTran) dupOutputBlock(table string, iIndex int, ix schema.Index,
@@ -464,7 +478,7 @@ func (t *UpdateTran) Delete(th *core.Thread, table string, off uint64) {
 		assert.That(ti.Size >= n)
 		ti.Size -= n
 	}()
-	t.db.CallTrigger(th, t, table, rec, "")
+	t.callTrigger(th, table, rec, "")
 }
 
 // fkeyDeleteBlock blocks removing a key value (by delete or update)
@@ -643,7 +657,7 @@ func (t *UpdateTran) update(th *core.Thread, table string, oldoff uint64, newrec
 			}
 		}
 	}()
-	t.db.CallTrigger(th, t, table, oldrec, newrec)
+	t.callTrigger(th, table, oldrec, newrec)
 	return newoff
 }
 
